@@ -201,6 +201,10 @@ def run_C10(ctx):
     r2 = ctx.tlc("MC_C10cyc", timeout=900)
     res2 = ctx.vh_isolated("c10-replay", r2.out, chunk=400, timeout=120, sig_prefix="c10")
     ctx.absorb(res2, "G:c10-replay(cycles)")
+    # beyond the length bound: random behaviours of the same specification (documents of up to 12 tokens)
+    rsim = ctx.tlc("MC_C10", cfg="MC_C10_sim.cfg", simulate=40 if ctx.quick else 2000, depth=13, seed=ctx.seed, label="MC_C10(simulate)", timeout=3300)
+    ressim = ctx.vh_isolated("c10-replay", rsim.out, chunk=4000, timeout=900, sig_prefix="c10")
+    ctx.absorb(ressim, "G:c10-replay(simulated documents of up to 12 tokens)")
     # nesting shapes: a leaf macro pasted from a middle and a top macro, on the top level of their bodies and among the children
     # of their directives, in front of and behind other items (every expansion is a new copy)
     rn = ctx.tlc("MC_C10nest", cfg="MC_C10nest_quick.cfg" if ctx.quick else "MC_C10nest_thorough.cfg", timeout=3300)
@@ -312,6 +316,13 @@ def run_C09(ctx):
     ctx.cov["exhaustive"] = True
     st = ctx.vh("c09-replay", r.out, "selftest")
     ctx.selftest(st["n_mismatch"] >= st["cases"] * 0.6, "C09 G: a corrupted unsplit document is noticed")
+    # V: the relation of the model (CatalogSame / same rule error at the corresponding line) on the repository's own documents:
+    # every single-file corpus document cut at directive boundaries found with the real scanner, nested up to three deep
+    resc = ctx.vh("c09-corpus", REPO, ctx.seed, 4 if ctx.quick else 60, timeout=3000)
+    ctx.absorb(resc, "V:c09-corpus(random balanced cuts of corpus documents)")
+    ctx.cov["traces_validated_against_impl"] += resc.get("cases", 0)
+    stc = ctx.vh("c09-corpus", REPO, ctx.seed, 1, "selftest", timeout=3000)
+    ctx.selftest(stc["n_mismatch"] == stc["cases"] and stc["cases"] > 100, "C09 V: a corrupted unsplit outcome is noticed for every cut")
 
 
 # ------------------------------------------------------------------ C02 / C05 / C08
@@ -408,6 +419,13 @@ def run_C15(ctx):
     ctx.cov["exhaustive"] = True
     st = ctx.vh("c15-replay", r.out, "selftest")
     ctx.selftest(st["n_mismatch"] >= 0.8 * st["cases"], "C15 G: a changed document is noticed")
+    # V: the relation of the model (OrderIrrelevant) on the repository's own accepted documents: top-level blocks found with the
+    # real tree builder, seeded permutations (documents with a root-level MACRO / PASTE are left out)
+    resc = ctx.vh("c15-corpus", REPO, ctx.seed, 4 if ctx.quick else 60, timeout=3000)
+    ctx.absorb(resc, "V:c15-corpus(seeded permutations of corpus documents)")
+    ctx.cov["traces_validated_against_impl"] += resc.get("cases", 0)
+    stc = ctx.vh("c15-corpus", REPO, ctx.seed, 1, "selftest", timeout=3000)
+    ctx.selftest(stc["n_mismatch"] == stc["cases"] and stc["cases"] > 100, "C15 V: an extra declaration is noticed in every permuted document")
 
 
 def run_C19(ctx):
